@@ -35,6 +35,8 @@ def services(rnd):
         dict(name="stopped", host="stopped.test", state="stopped", message=hx('back at <noon> & "later"'), custom=rnd.random() < 0.5, **lists()),
         dict(name="drainme", host="drain.test", **lists()),
         dict(name="gen", host="gen.test", log_req=[hx("X-Custom-Req")], log_resp=[hx("X-Custom-Resp"), hx("date")]),
+        # buffering with a small memory share and no body limit: larger bodies spill to the temporary file and are copied from there
+        dict(name="spill", host="spill.test", buffer=True, max_req=0, max_resp=0, mem=1024, **lists()),
     ]
     # the first two always log something
     svcs[0]["log_req"] = [hx(n) for n in rnd.sample(REQ_POOL, 4)]
@@ -108,8 +110,8 @@ def mk_case(rnd, cid, cls, svcs):
     elif cls == "served_head":
         c["method"] = "HEAD"
     elif cls == "served_large":
-        svc = rnd.choice(["web", "pages"])
-        script["body_len"] = rnd.choice([70000, 300000])
+        svc = rnd.choice(["web", "pages", "spill", "spill"])
+        script["body_len"] = rnd.choice([70000, 300000] if svc != "spill" else [1025, 8192, 70000, 300000])
         script["chunked"] = rnd.random() < 0.5
     elif cls == "served_204":
         script["status"], script["body_len"] = 204, 0
